@@ -455,7 +455,7 @@ Proof.
   destruct (e0 <? s0)%nat eqn:Ees.
   - cbn [andb].
     destruct interior, from_out; cbn [andb negb]; try discriminate; try (intros E; inversion E; subst; reflexivity).
-    + (* interior, from_out *) destruct (out_mode b) eqn:Eo; cbn [negb]; [|discriminate].
+    + (* interior, from_out *) destruct (out_mode b) eqn:Eo; cbn [negb andb]; [|discriminate].
       cbn [orb]. cbn [out_mode with_scratch negb]. rewrite Eo. cbn [negb pre rest dead level with_scratch].
       destruct (length (pre b) <? s0)%nat eqn:E1; [discriminate|]. apply Nat.ltb_ge in E1.
       destruct (e0 <? dead b)%nat; [discriminate|].
@@ -468,7 +468,7 @@ Proof.
       destruct (add_scratch_frame (with_pr (with_scratch b (N.lor (scratch b) SCRATCH_HAS_GLYPH_FLAGS)) (fst r1) (fst r2) (dead b)) (snd r1)) as [-> ->].
       cbn. rewrite !cls_app.
       rewrite (infos_set_glyph_flags_cls _ _ _ _ _ _ _ E1 F1), (infos_set_glyph_flags_cls _ _ _ _ _ _ _ (Nat.le_0_l _) F2). reflexivity.
-    + (* not interior, from_out *) destruct (out_mode b) eqn:Eo; cbn [negb]; [|discriminate].
+    + (* not interior, from_out *) destruct (out_mode b) eqn:Eo; cbn [negb andb]; [|intros E; inversion E; subst; reflexivity].
       cbn [orb]. cbn [out_mode with_scratch negb]. rewrite Eo. cbn [negb pre rest dead level with_scratch].
       destruct (length (pre b) <? s0)%nat; [discriminate|]. destruct (e0 <? dead b)%nat; [discriminate|].
       intros E; inversion E; subst. cbn. rewrite !cls_app, !cls_map_range_mask. reflexivity.
